@@ -966,3 +966,47 @@ def basin_loop(func, what):
     if len(found) != 1:
         raise AnalysisError(f"{what}: basin loop lost")
     return found[0]
+
+
+def expand_partials(func):
+    """copy of `func` in which calls of a local bound once to
+    ``functools.partial(f, *a, **k)`` are rewritten to ``f(*a, ..., **k)``"""
+    stores = {}
+    for n in walk(func):
+        if isinstance(n, ast.Name) and isinstance(n.ctx, ast.Store):
+            stores[n.id] = stores.get(n.id, 0) + 1
+    parts = {}
+    for n in walk(func):
+        if isinstance(n, ast.Assign) and len(n.targets) == 1 and isinstance(
+                n.targets[0], ast.Name) and stores.get(
+                n.targets[0].id) == 1 and isinstance(
+                n.value, ast.Call) and dotted(n.value.func) in (
+                "functools.partial", "partial") and n.value.args:
+            parts[n.targets[0].id] = n.value
+    if not parts:
+        return func
+    new = _copy.deepcopy(func)
+
+    class T(ast.NodeTransformer):
+        def visit_Call(self, node):
+            self.generic_visit(node)
+            if isinstance(node.func, ast.Name) and node.func.id in parts:
+                pc = parts[node.func.id]
+                given = {k.arg for k in node.keywords if k.arg}
+                kws = [_copy.deepcopy(k) for k in pc.keywords
+                       if k.arg is None or k.arg not in given]
+                return ast.copy_location(ast.Call(
+                    func=_copy.deepcopy(pc.args[0]),
+                    args=[_copy.deepcopy(a) for a in pc.args[1:]]
+                    + node.args,
+                    keywords=kws + node.keywords), node)
+            return node
+
+        def visit_FunctionDef(self, node):
+            if node is new:
+                self.generic_visit(node)
+            return node
+
+        visit_Lambda = lambda self, node: node
+    T().visit(new)
+    return _finish(new, func)
